@@ -18,7 +18,7 @@ SPECS = {
     "C13": vec("BumpVerif.Props.C13",
                [("general", 900, 45), ("bounds", 700, 45), ("iters", 500, 45), ("growth", 400, 45), ("zst", 400, 40), ("copy", 300, 40), ("panics", 500, 45)],
                ["res", "len", "cap", "ids", "moved"], VEC_OPS,
-               quick_release=[("bounds", 300, 45), ("general", 200, 45)], thorough_scale=100,
+               quick_release=[("bounds", 300, 45), ("general", 200, 45)], thorough_scale=100, boundary=True,
                partial=["per-method refinement theorems are proved for every method of the list: push, pop, insert, remove, swap_remove, "
                         "truncate, clear, append, split_off, drain (all range forms), retain, drain_filter, into_iter (front/back), reserve "
                         "family, and (Proofs/VecRefine2.lean, Proofs/VecSplice.lean) splice (every path incl. lying size_hint, refused "
